@@ -202,7 +202,7 @@ func Follow(c *Ctx) error {
 			}
 		}
 		cases = append(cases, fixed...)
-		n := 400
+		n := 1500
 		if c.Thorough() {
 			n = 8000
 		}
